@@ -79,7 +79,8 @@ Definition app_imports (hc : crate_types -> crate_types) (cs : crates) : list (s
   match crates_get cs (lit "app") with Some pd => scoped_pairs (crate_imports hc cs (lit "app") pd) | None => [] end.
 
 (* the hypotheses of multi_hash_order_irrelevant hold of it, under the identity and the reversed orders; the crate `app`
-   imports Item from ./alpha and everything from ./beta, refers to Node under its serde name, and the files are the same *)
+   imports Item and AlphaNode (Node's generated name) from ./alpha and everything from ./beta, refers to Node under its serde name,
+   and the files are the same *)
 Example multi_nonvacuous :
   exists arrivals,
     parse_workspace uc_exec [] [] (fun l => l) ws_clean = Ok arrivals /\
@@ -87,7 +88,7 @@ Example multi_nonvacuous :
     oracle_ok (@idl imported) /\ oracle_ok (@rev imported) /\ oracle_ok (@idl (str * list str)) /\ oracle_ok (@rev (str * list str)) /\
     map fst (multi_crates idl arrivals) = [lit "alpha"; lit "app"; lit "beta"] /\
     app_field_types (multi_crates (@rev _) (rev arrivals)) = [RSimple (lit "Item"); RSimple (lit "Leaf"); RSimple (lit "AlphaNode")] /\
-    app_imports (@rev _) (multi_crates (@rev _) (rev arrivals)) = [(lit "alpha", lit "Item"); (lit "beta", lit "Edge"); (lit "beta", lit "Leaf")] /\
+    app_imports (@rev _) (multi_crates (@rev _) (rev arrivals)) = [(lit "alpha", lit "AlphaNode"); (lit "alpha", lit "Item"); (lit "beta", lit "Edge"); (lit "beta", lit "Leaf")] /\
     generate_crates m_ts_gen [] (multi_plan TypeScript idl (multi_crates idl arrivals)) =
     generate_crates m_ts_gen [] (multi_plan TypeScript (@rev _) (multi_crates (@rev _) (rev arrivals))).
 Proof.
